@@ -1,0 +1,80 @@
+//go:build verif
+
+// Copyright © 2022-2026 Obol Labs Inc. Licensed under the terms of a Business Source License 1.1
+
+package bcast
+
+import (
+	"context"
+
+	k1 "github.com/decred/dcrd/dcrec/secp256k1/v4"
+	"github.com/libp2p/go-libp2p/core/host"
+	"github.com/libp2p/go-libp2p/core/network"
+	"github.com/libp2p/go-libp2p/core/peer"
+	"github.com/libp2p/go-libp2p/core/protocol"
+	"google.golang.org/protobuf/proto"
+	"google.golang.org/protobuf/types/known/anypb"
+
+	"github.com/obolnetwork/charon/p2p"
+)
+
+// Verification hooks (build tag verif): add-only, no behaviour change. They let an external
+// harness act as the transport of the reliable-broadcast protocol: the unmodified New wires the
+// component, the harness then calls the two server handlers with a peer id of its choosing and
+// supplies the client's send functions.
+
+// verifHost is a host.Host that only knows its peer id and swallows handler registrations.
+// Every other method panics (nil embedded interface), nothing in this package calls them.
+type verifHost struct {
+	host.Host
+
+	id peer.ID
+}
+
+func (h verifHost) ID() peer.ID { return h.id }
+
+func (verifHost) SetStreamHandler(protocol.ID, network.StreamHandler) {}
+
+func (verifHost) SetStreamHandlerMatch(protocol.ID, func(protocol.ID) bool, network.StreamHandler) {}
+
+// VerifStubHost returns a host without any networking whose ID() is id.
+func VerifStubHost(id peer.ID) host.Host { return verifHost{id: id} }
+
+// VerifNew builds a Component through the unmodified New (server handlers are registered on a
+// stub host, i.e. nowhere) and points its client at the given transport functions.
+func VerifNew(self peer.ID, peers []peer.ID, secret *k1.PrivateKey, sessionHash []byte,
+	sendRecv p2p.SendReceiveFunc, send p2p.SendFunc,
+) *Component {
+	h := VerifStubHost(self)
+	c := New(h, peers, secret, sessionHash)
+	cl := newClient(h, peers, sendRecv, send, c.srv.hashFunc, c.srv.signFunc, c.srv.verifyFunc)
+	c.broadcastFunc = cl.Broadcast
+
+	return c
+}
+
+// VerifHandleSigRequest calls the server's signature-request handler as if pID had sent m.
+func (c *Component) VerifHandleSigRequest(ctx context.Context, pID peer.ID, m proto.Message) (proto.Message, bool, error) {
+	return c.srv.handleSigRequest(ctx, pID, m)
+}
+
+// VerifHandleMessage calls the server's message handler as if pID had sent m.
+func (c *Component) VerifHandleMessage(ctx context.Context, pID peer.ID, m proto.Message) (proto.Message, bool, error) {
+	return c.srv.handleMessage(ctx, pID, m)
+}
+
+// VerifDedupLen returns the number of entries of the server's dedup table.
+func (c *Component) VerifDedupLen() int {
+	c.srv.mu.Lock()
+	defer c.srv.mu.Unlock()
+
+	return len(c.srv.dedup)
+}
+
+// VerifHash returns the digest signed for (sessionHash, msgID, anyPB).
+func VerifHash(sessionHash []byte, msgID string, anyPB *anypb.Any) ([]byte, error) {
+	return newHashAny(sessionHash)(msgID, anyPB)
+}
+
+// VerifProtocolIDs returns the signature-request and message protocol ids.
+func VerifProtocolIDs() (protocol.ID, protocol.ID) { return protocolIDSig, protocolIDMsg }
